@@ -204,6 +204,14 @@ func analyseResolver(c *core.Ctx, fn *ssa.Function, rules map[string]bool) {
 				if innerIsAdded || !one || !valueOfSame(x, t.Args[1], t.Args[2]) {
 					report("C01-R5", "pass-through", site.Pos(), "an undefined name must stand for itself: expected a merge of the single element {e.Name, e.Value} with coefficient 1, found %s x %s", list.Key(), mult.Key())
 				}
+				// only a name the book does not define stands for itself
+				for k := range s.PC {
+					if strings.HasPrefix(k, "b(has(") && strings.HasSuffix(k, ","+t.Args[1].Key()+"))") {
+						if o := x.Possible(s, k); len(o) == 1 && o[0] == "T" {
+							report("C01-R3", "defined-kept", site.Pos(), "an ingredient that the book defines is merged under its own name instead of being expanded (the lookup found it on this path): a recipe name is left in the resolved list")
+						}
+					}
+				}
 				return absint.Const{}, true
 			}
 			// a one-element literal Elements{{Name: e.Name, Value: e.Value}}
@@ -696,10 +704,347 @@ func ruleResolverShapes(c *core.Ctx, rule string) {
 				c.Universe(rule+" functions that store a recipe's list", fname+" ("+c.P.Pos(st.Pos())+")")
 				if analysed[top] {
 					c.Discharge(rule, fname, "shape", c.P.Pos(st.Pos()), "the list is stored by a directly recursive walk, which the guard and construction rules analyse")
+				} else if verdict, msg, known := stackResolverGuard(c.P, top); known {
+					// a walk that keeps its own stack: the depth of an ingredient is the length of the stack when it is pushed
+					if verdict {
+						c.Discharge(rule, fname, "shape", c.P.Pos(st.Pos()), msg)
+					} else {
+						c.Violate(rule, fname, "shape", c.P.Pos(st.Pos()), msg, nil)
+					}
 				} else {
 					c.Undecide(rule, fname, "shape", c.P.Pos(st.Pos()), "a recipe's element list is stored by a function that is not a directly recursive walk (its recursion goes through another function, or it keeps a stack of its own): the depth guard and the construction of the list are not modelled for this shape, so nothing is claimed about it", nil)
 				}
 			}
 		}
 	}
+}
+
+// stackResolverGuard recognises a resolver that keeps an explicit stack of frames (one frame per recipe being
+// expanded, pushed with append, popped by reslicing) and decides its depth guard: the comparison with the limit that
+// leads to the error must say "length of the stack (plus the level the walk was entered at) >= limit" — the depth of
+// the ingredient about to be pushed — in one of its spellings. known=false when the function is not of that shape.
+func stackResolverGuard(p *core.Program, fn *ssa.Function) (ok bool, msg string, known bool) {
+	// the stack: a value that is the first argument of append and also resliced
+	var stack ssa.Value
+	for _, b := range fn.Blocks {
+		for _, in := range b.Instrs {
+			call, isCall := in.(*ssa.Call)
+			if !isCall {
+				continue
+			}
+			if bi, isB := call.Call.Value.(*ssa.Builtin); isB && bi.Name() == "append" && len(call.Call.Args) == 2 {
+				if sl, isSl := call.Call.Args[0].Type().Underlying().(*types.Slice); isSl {
+					switch sl.Elem().Underlying().(type) {
+					case *types.Pointer, *types.Struct:
+						if _, isPhi := call.Call.Args[0].(*ssa.Phi); isPhi {
+							stack = call.Call.Args[0]
+						}
+					}
+				}
+			}
+		}
+	}
+	if stack == nil {
+		return false, "", false
+	}
+	popped := false
+	for _, r := range *stack.Referrers() {
+		if sl, isSl := r.(*ssa.Slice); isSl && sl.X == stack && sl.High != nil {
+			popped = true
+		}
+	}
+	if !popped {
+		return false, "", false
+	}
+	isLimit := func(v ssa.Value) bool {
+		switch t := v.(type) {
+		case *ssa.Parameter:
+			return strings.Contains(strings.ToLower(t.Name()), "depth") || strings.Contains(strings.ToLower(t.Name()), "max")
+		case *ssa.UnOp:
+			if fa, isFA := t.X.(*ssa.FieldAddr); isFA && t.Op == token.MUL {
+				return fieldName(fa.X.Type(), fa.Field) == "MaxDepth"
+			}
+		case *ssa.Field:
+			return fieldNameV(t.X.Type(), t.Field) == "MaxDepth"
+		}
+		return false
+	}
+	// E = len(stack) + k (+ level parameters): returns k and whether the stack length occurs exactly once
+	var terms func(v ssa.Value, sign int64, depth int) (k int64, lens int, good bool)
+	terms = func(v ssa.Value, sign int64, depth int) (int64, int, bool) {
+		if depth > 5 {
+			return 0, 0, false
+		}
+		switch t := v.(type) {
+		case *ssa.Const:
+			if t.Value == nil {
+				return 0, 0, false
+			}
+			return sign * t.Int64(), 0, true
+		case *ssa.Parameter:
+			if bt, isB := t.Type().Underlying().(*types.Basic); isB && bt.Info()&types.IsInteger != 0 {
+				return 0, 0, true // the level the walk was entered at (C11-R5 holds the entry points to 0)
+			}
+		case *ssa.Call:
+			if bi, isB := t.Call.Value.(*ssa.Builtin); isB && bi.Name() == "len" && len(t.Call.Args) == 1 && t.Call.Args[0] == stack {
+				if sign != 1 {
+					return 0, 0, false
+				}
+				return 0, 1, true
+			}
+		case *ssa.BinOp:
+			if t.Op == token.ADD || t.Op == token.SUB {
+				k1, l1, g1 := terms(t.X, sign, depth+1)
+				s2 := sign
+				if t.Op == token.SUB {
+					s2 = -sign
+				}
+				k2, l2, g2 := terms(t.Y, s2, depth+1)
+				return k1 + k2, l1 + l2, g1 && g2
+			}
+		}
+		return 0, 0, false
+	}
+	found := false
+	for _, b := range fn.Blocks {
+		iff, isIf := b.Instrs[len(b.Instrs)-1].(*ssa.If)
+		if !isIf {
+			continue
+		}
+		cmp, isCmp := iff.Cond.(*ssa.BinOp)
+		if !isCmp {
+			continue
+		}
+		e, op := cmp.X, cmp.Op
+		switch {
+		case isLimit(cmp.Y):
+		case isLimit(cmp.X):
+			e = cmp.Y
+			switch op {
+			case token.LSS:
+				op = token.GTR
+			case token.LEQ:
+				op = token.GEQ
+			case token.GTR:
+				op = token.LSS
+			case token.GEQ:
+				op = token.LEQ
+			}
+		default:
+			continue
+		}
+		k, lens, good := terms(e, 1, 0)
+		if !good || lens != 1 {
+			continue // a test of the entry level, or something else
+		}
+		found = true
+		// which side errors: the true side must lead to a return of a non-nil error
+		want := int64(0)
+		switch op {
+		case token.GEQ, token.EQL:
+			want = 0
+		case token.GTR:
+			want = 1
+		default:
+			return false, fmt.Sprintf("the walk keeps its own stack, and its depth guard at %s compares the stack with the limit by %s: not a test that fails when the depth reaches the limit", p.Pos(cmp.Pos()), op), true
+		}
+		if k != want {
+			return false, fmt.Sprintf("the walk keeps its own stack; an ingredient about to be pushed is at depth len(stack), but the guard at %s compares len(stack)%+d %s limit: the limit trips %d level(s) %s (a chain of exactly limit-1 references is refused, or one of limit references accepted)", p.Pos(cmp.Pos()), k, op, abs64(k-want), map[bool]string{true: "too early", false: "too late"}[k > want]), true
+		}
+	}
+	if !found {
+		return false, "", false
+	}
+	return true, "a walk that keeps its own stack: the guard fails exactly when the length of the stack — the depth of the ingredient about to be pushed — reaches the limit (the construction of the list is not modelled for this shape)", true
+}
+
+func abs64(v int64) int64 {
+	if v < 0 {
+		return -v
+	}
+	return v
+}
+
+// ruleEveryRecipeWalked is C11-R9 (shared with C01): every recipe of the book is the start of a walk. Where package
+// resolver ranges over the book to collect the names the walks start from (or to walk them on the spot), every
+// iteration puts its key on the list (or walks it): the append or call is reached on every way through the loop
+// body. A list of "top-level" or otherwise selected recipes leaves recipes unvisited — a cycle that nothing outside
+// it uses is then never walked, never hits the limit, and is reported as resolved.
+func ruleEveryRecipeWalked(c *core.Ctx, rule string) {
+	dbT := c.P.LookupType(core.LibPath, "DBNodeMap")
+	if !requireAnchor(c, rule, "lib.DBNodeMap", dbT != nil) {
+		return
+	}
+	n := 0
+	for _, fn := range c.P.Funcs {
+		if core.FnPkgPath(fn) != resolverPkg {
+			continue
+		}
+		for _, b := range fn.Blocks {
+			for _, in := range b.Instrs {
+				rg, ok := in.(*ssa.Range)
+				if !ok || !types.Identical(rg.X.Type(), dbT) {
+					continue
+				}
+				// the loop head: the block that calls next on this iterator
+				var head *ssa.BasicBlock
+				var key ssa.Value
+				for _, r := range *rg.Referrers() {
+					if nx, ok := r.(*ssa.Next); ok {
+						head = nx.Block()
+						for _, rr := range *nx.Referrers() {
+							if ex, ok := rr.(*ssa.Extract); ok && ex.Index == 1 {
+								key = ex
+							}
+						}
+					}
+				}
+				if head == nil || key == nil || key.Referrers() == nil {
+					continue
+				}
+				var latches []*ssa.BasicBlock
+				for _, p := range head.Preds {
+					if head.Dominates(p) {
+						latches = append(latches, p)
+					}
+				}
+				if len(latches) == 0 {
+					continue
+				}
+				// what is done with the key: appended to a list, or handed to a call
+				var uses []ssa.Instruction
+				for _, r := range *key.Referrers() {
+					uses = append(uses, r)
+					// append(names, key): the key goes through the one-element array of the variadic argument
+					if st, ok := r.(*ssa.Store); ok && st.Val == key {
+						if ia, ok := st.Addr.(*ssa.IndexAddr); ok && ia.X.Referrers() != nil {
+							for _, ar := range *ia.X.Referrers() {
+								if sl, ok := ar.(*ssa.Slice); ok && sl.Referrers() != nil {
+									uses = append(uses, *sl.Referrers()...)
+								}
+							}
+						}
+					}
+				}
+				for _, r := range uses {
+					call, ok := r.(*ssa.Call)
+					if !ok {
+						continue
+					}
+					isAppend := false
+					if bi, isB := call.Call.Value.(*ssa.Builtin); isB {
+						if bi.Name() != "append" {
+							continue
+						}
+						isAppend = true
+					} else if cal := core.Callee(&call.Call); cal == nil || !c.P.InScope(cal) {
+						continue
+					}
+					n++
+					fname := core.FuncName(fn)
+					pos := c.P.Pos(call.Pos())
+					c.Universe(rule+" loops over the book that start the walks", fname+" ("+pos+")")
+					all := true
+					for _, l := range latches {
+						if !call.Block().Dominates(l) {
+							all = false
+						}
+					}
+					what := map[bool]string{true: "put on the list of names the walks start from", false: "walked"}[isAppend]
+					if all {
+						c.Discharge(rule, fname, "every-recipe", pos, "every key of the book is "+what)
+					} else {
+						c.Violate(rule, fname, "every-recipe", pos, "not every recipe of the book is "+what+": a way through the loop body passes the "+map[bool]string{true: "append", false: "call"}[isAppend]+" by. A recipe that is left out is resolved only if another walk happens to reach it; a cycle that no recipe outside it uses is never walked, never hits the depth limit, and the book is reported as resolved", nil)
+					}
+				}
+			}
+		}
+	}
+	// the loops that start the walks: a call of a walk from inside a loop of an entry point is reached on every way
+	// through the loop body (`if used[name] { continue }` in front of it skips recipes)
+	walks := map[*ssa.Function]bool{}
+	for _, r := range recursiveResolvers(c.P) {
+		walks[r] = true
+	}
+	for _, fn := range c.P.Funcs {
+		if core.FnPkgPath(fn) != resolverPkg || walks[fn] {
+			continue
+		}
+		for _, b := range fn.Blocks {
+			for _, in := range b.Instrs {
+				call, ok := in.(*ssa.Call)
+				if !ok {
+					continue
+				}
+				cal := core.Callee(&call.Call)
+				if cal == nil || core.FnPkgPath(cal) != resolverPkg {
+					continue
+				}
+				if !walks[cal] {
+					// a method that makes a walk object and runs it counts as the walk when it calls one directly
+					direct := false
+					for _, cb := range cal.Blocks {
+						for _, ci := range cb.Instrs {
+							if c2, ok := ci.(*ssa.Call); ok && walks[core.Callee(&c2.Call)] {
+								direct = true
+							}
+						}
+					}
+					if !direct || cal == fn {
+						continue
+					}
+				}
+				// the innermost loop around the call
+				var head *ssa.BasicBlock
+				for _, h := range fn.Blocks {
+					isHead := false
+					for _, p := range h.Preds {
+						if h.Dominates(p) {
+							isHead = true
+						}
+					}
+					if isHead && h.Dominates(b) && (head == nil || head.Dominates(h)) {
+						// b must lie inside h's loop: some latch of h is reachable from b without leaving through h
+						head = h
+					}
+				}
+				if head == nil {
+					continue
+				}
+				n++
+				fname := core.FuncName(fn)
+				pos := c.P.Pos(call.Pos())
+				c.Universe(rule+" loops over the book that start the walks", fname+" → "+core.FuncName(cal)+" ("+pos+")")
+				all := true
+				for _, p := range head.Preds {
+					if head.Dominates(p) && !b.Dominates(p) && !callDominatesVia(b, p) {
+						all = false
+					}
+				}
+				if all {
+					c.Discharge(rule, fname, "every-name walked", pos, "every name the loop is given is walked")
+				} else {
+					c.Violate(rule, fname, "every-name walked", pos, "a way through the body of the loop that starts the walks passes the call of the walk by (a name is skipped before it): a recipe that is left out is resolved only if another walk happens to reach it, and a cycle that no recipe outside it uses is never walked and never hits the depth limit", nil)
+				}
+			}
+		}
+	}
+	if n == 0 {
+		c.Note(rule + ": package resolver does not range over the book to start its walks (it may iterate another way)")
+	}
+}
+
+// callDominatesVia: the latch p is only reached from the block b of the call through the test of the call's error
+// (if err := walk(...); err != nil { return err }): b dominates p's only predecessor chain.
+func callDominatesVia(b, p *ssa.BasicBlock) bool {
+	for i := 0; i < 4 && p != nil; i++ {
+		if b.Dominates(p) {
+			return true
+		}
+		if len(p.Preds) != 1 {
+			return false
+		}
+		p = p.Preds[0]
+	}
+	return false
 }
